@@ -134,9 +134,13 @@ func GenPipeCfg(c *simrt.Chooser, txn, resume int) PipeCfg {
 		cfg.BatchCount = uint(10 + c.Choose("batchbig", 200))
 	}
 	cfg.BatchBytes = uint64(16) << c.Choose("batchbytes", 13) // 16 B .. 64 KiB
+	// the three tickers are created at the same virtual instant; periods that are multiples of each other would
+	// make them fire at the SAME instant, and the order in which the runtime delivers same-instant timers is not
+	// ours to decide (measured: run-to-run digest differences). Distinct sub-millisecond offsets keep every firing
+	// instant unique, so "which ticker first" is decided by virtual time, i.e. by the schedule.
 	cfg.BatchTicker = tickerChoices[c.Choose("batchticker", 6)]
-	cfg.Keepalive = tickerChoices[1+c.Choose("keepalive", 7)]
-	cfg.CpTicker = tickerChoices[c.Choose("cpticker", 7)]
+	cfg.Keepalive = tickerChoices[1+c.Choose("keepalive", 7)] + 137*time.Microsecond
+	cfg.CpTicker = tickerChoices[c.Choose("cpticker", 7)] + 271*time.Microsecond
 	cfg.Pipeline = c.Choose("pipeline", 2) == 1
 	switch txn {
 	case 0:
